@@ -260,6 +260,7 @@ func options(h *hist.History) pipeline.Options {
 		DisableKeywords:     h.Opt.DisableKeywords,
 		Gateway:             h.Opt.Gateway,
 		ConfigMapName:       "ingress/cfg",
+		TCPConfigMapName:    "ingress/tcp",
 		PodNamespace:        "ingress",
 		ReloadInterval:      time.Duration(h.Opt.ReloadInterval) * time.Millisecond,
 	}
